@@ -153,6 +153,30 @@ fn ref_bits(vars: &[Var], r: &Ref, loop_i: Option<usize>) -> Bits {
     out
 }
 
+/// the bits of every single reference in `e` (one set per `x`, `x[3:1]`, `a[2]`, …)
+fn expr_groups(vars: &[Var], e: &E, loop_i: Option<usize>) -> Vec<Bits> {
+    fn go(vars: &[Var], e: &E, loop_i: Option<usize>, out: &mut Vec<Bits>) {
+        match e {
+            E::K(..) => {}
+            E::R(r) => out.push(ref_bits(vars, r, loop_i)),
+            E::Not(a) | E::Red(_, a) => go(vars, a, loop_i, out),
+            E::Bin(_, a, b) | E::Cmp(_, a, b) => {
+                go(vars, a, loop_i, out);
+                go(vars, b, loop_i, out);
+            }
+            E::Mux(c, a, b) => {
+                go(vars, c, loop_i, out);
+                go(vars, a, loop_i, out);
+                go(vars, b, loop_i, out);
+            }
+            E::Cat(p) => p.iter().for_each(|x| go(vars, x, loop_i, out)),
+        }
+    }
+    let mut out = vec![];
+    go(vars, e, loop_i, &mut out);
+    out
+}
+
 fn expr_reads(vars: &[Var], e: &E, loop_i: Option<usize>, out: &mut Bits) {
     match e {
         E::K(..) => {}
@@ -174,7 +198,7 @@ fn expr_reads(vars: &[Var], e: &E, loop_i: Option<usize>, out: &mut Bits) {
 #[derive(Clone, Debug)]
 enum Ev {
     /// bits, in a condition?, read site (expression identity, loop iteration)
-    Read(Bits, bool, (usize, usize)),
+    Read(Bits, bool, (usize, usize), Vec<Bits>),
     Write(Bits),
 }
 
@@ -192,7 +216,7 @@ fn paths(vars: &[Var], stmts: &[S], loop_i: Option<usize>, cap: usize) -> Option
             S::Assign(r, e) => {
                 let mut rd = Bits::new();
                 expr_reads(vars, e, loop_i, &mut rd);
-                vec![vec![Ev::Read(rd, false, site(e, loop_i)), Ev::Write(ref_bits(vars, r, loop_i))]]
+                vec![vec![Ev::Read(rd, false, site(e, loop_i), expr_groups(vars, e, loop_i)), Ev::Write(ref_bits(vars, r, loop_i))]]
             }
             S::If(arms, els) | S::Switch(arms, els) => {
                 let flip = matches!(s, S::Switch(..)) && FLIP_IGNORE_DEFAULT.load(std::sync::atomic::Ordering::Relaxed);
@@ -202,7 +226,7 @@ fn paths(vars: &[Var], stmts: &[S], loop_i: Option<usize>, cap: usize) -> Option
                 for (c, body) in arms {
                     let mut rd = Bits::new();
                     expr_reads(vars, c, loop_i, &mut rd);
-                    conds.push(Ev::Read(rd, true, site(c, loop_i)));
+                    conds.push(Ev::Read(rd, true, site(c, loop_i), expr_groups(vars, c, loop_i)));
                     for p in paths(vars, body, loop_i, cap)? {
                         let mut q = conds.clone();
                         q.extend(p);
@@ -224,7 +248,7 @@ fn paths(vars: &[Var], stmts: &[S], loop_i: Option<usize>, cap: usize) -> Option
             S::Case(sel, _, arms, def) => {
                 let mut rd = Bits::new();
                 expr_reads(vars, sel, loop_i, &mut rd);
-                let head = Ev::Read(rd, true, site(sel, loop_i));
+                let head = Ev::Read(rd, true, site(sel, loop_i), expr_groups(vars, sel, loop_i));
                 let def = if FLIP_IGNORE_DEFAULT.load(std::sync::atomic::Ordering::Relaxed) { &None } else { def };
                 let mut out = vec![];
                 for (_, body) in arms {
@@ -290,14 +314,14 @@ fn text_events(vars: &[Var], stmts: &[S], loop_i: Option<usize>, out: &mut Vec<E
             S::Assign(r, e) => {
                 let mut rd = Bits::new();
                 expr_reads(vars, e, loop_i, &mut rd);
-                out.push(Ev::Read(rd, false, site(e, loop_i)));
+                out.push(Ev::Read(rd, false, site(e, loop_i), expr_groups(vars, e, loop_i)));
                 out.push(Ev::Write(ref_bits(vars, r, loop_i)));
             }
             S::If(arms, els) | S::Switch(arms, els) => {
                 for (c, body) in arms {
                     let mut rd = Bits::new();
                     expr_reads(vars, c, loop_i, &mut rd);
-                    out.push(Ev::Read(rd, true, site(c, loop_i)));
+                    out.push(Ev::Read(rd, true, site(c, loop_i), expr_groups(vars, c, loop_i)));
                     text_events(vars, body, loop_i, out);
                 }
                 if let Some(b) = els {
@@ -307,7 +331,7 @@ fn text_events(vars: &[Var], stmts: &[S], loop_i: Option<usize>, out: &mut Vec<E
             S::Case(sel, _, arms, def) => {
                 let mut rd = Bits::new();
                 expr_reads(vars, sel, loop_i, &mut rd);
-                out.push(Ev::Read(rd, true, site(sel, loop_i)));
+                out.push(Ev::Read(rd, true, site(sel, loop_i), expr_groups(vars, sel, loop_i)));
                 for (_, b) in arms {
                     text_events(vars, b, loop_i, out);
                 }
@@ -399,12 +423,13 @@ fn comb_facts(vars: &[Var], stmts: &[S]) -> Option<CombFacts> {
     //   loose : on some path no bit of the variable is written before the read and some bit of it after
     //   text  : in text order (branches one after the other) the bit is not written before and is written after
     let mut strict: BTreeSet<((usize, usize), Bit)> = BTreeSet::new();
-    let mut loose: BTreeSet<((usize, usize), usize)> = BTreeSet::new();
+    let mut loose: BTreeSet<((usize, usize), Bit)> = BTreeSet::new();
     let mut text: BTreeSet<((usize, usize), Bit)> = BTreeSet::new();
+    let mut text_range: BTreeSet<((usize, usize), Bit)> = BTreeSet::new();
     let mut cond_sites: BTreeSet<(usize, usize)> = BTreeSet::new();
     for p in &ps {
         for (i, e) in p.iter().enumerate() {
-            let Ev::Read(rd, in_cond, st) = e else { continue };
+            let Ev::Read(rd, in_cond, st, groups) = e else { continue };
             if *in_cond {
                 cond_sites.insert(*st);
             }
@@ -426,8 +451,27 @@ fn comb_facts(vars: &[Var], stmts: &[S]) -> Option<CombFacts> {
                 if !written_before.contains(b) && written_after.contains(b) {
                     strict.insert((*st, *b));
                 }
-                if !vars_before.contains(&b.0) && vars_after.contains(&b.0) {
-                    loose.insert((*st, b.0));
+                let _ = (&vars_before, &vars_after);
+            }
+            // range reading: the *reference* that is read holds no bit assigned so far, and the
+            // first later write that covers the bit is a reference holding no bit assigned before it
+            for g in groups {
+                if g.iter().any(|b| written_before.contains(b)) {
+                    continue;
+                }
+                for b in g {
+                    let mut before_w = written_before.clone();
+                    for e2 in &p[i + 1..] {
+                        if let Ev::Write(wb) = e2 {
+                            if wb.contains(b) {
+                                if !wb.iter().any(|x| before_w.contains(x)) {
+                                    loose.insert((*st, *b));
+                                }
+                                break;
+                            }
+                            before_w.extend(wb.iter().copied());
+                        }
+                    }
                 }
             }
         }
@@ -435,7 +479,7 @@ fn comb_facts(vars: &[Var], stmts: &[S]) -> Option<CombFacts> {
     let mut ev = vec![];
     text_events(vars, stmts, None, &mut ev);
     for (i, e) in ev.iter().enumerate() {
-        let Ev::Read(rd, _, st) = e else { continue };
+        let Ev::Read(rd, _, st, groups) = e else { continue };
         let mut before = Bits::new();
         for e2 in &ev[..i] {
             if let Ev::Write(b) = e2 {
@@ -453,12 +497,32 @@ fn comb_facts(vars: &[Var], stmts: &[S]) -> Option<CombFacts> {
                 text.insert((*st, *b));
             }
         }
+        // the same at reference granularity in text order
+        for g in groups {
+            if g.iter().any(|b| before.contains(b)) {
+                continue;
+            }
+            for b in g {
+                let mut before_w = before.clone();
+                for e2 in &ev[i + 1..] {
+                    if let Ev::Write(wb) = e2 {
+                        if wb.contains(b) {
+                            if !wb.iter().any(|x| before_w.contains(x)) {
+                                text_range.insert((*st, *b));
+                            }
+                            break;
+                        }
+                        before_w.extend(wb.iter().copied());
+                    }
+                }
+            }
+        }
     }
     f.rba_strict = !strict.is_empty();
     f.rba_loose = !loose.is_empty();
     f.rba_text = !text.is_empty();
     for (st, b) in &strict {
-        if text.contains(&(*st, *b)) && loose.contains(&(*st, b.0)) {
+        if text.contains(&(*st, *b)) && loose.contains(&(*st, *b)) && text_range.contains(&(*st, *b)) {
             f.rba_all = true;
             if cond_sites.contains(st) { f.rba_in_cond = true } else { f.rba_in_rhs = true }
         }
@@ -480,7 +544,7 @@ fn stmt_reads(vars: &[Var], stmts: &[S], out_rhs: &mut Bits, out_cond: &mut Bits
     let mut ev = vec![];
     text_events(vars, stmts, None, &mut ev);
     for e in ev {
-        if let Ev::Read(b, c, _) = e {
+        if let Ev::Read(b, c, _, _) = e {
             if c { out_cond.extend(b) } else { out_rhs.extend(b) }
         }
     }
@@ -816,6 +880,96 @@ impl<'a> Gen<'a> {
         }
     }
 
+    /// Mixed partial writes and partial reads of one variable inside one always_comb: the variable is
+    /// cut into 2-4 ranges (or array elements); each range is assigned-then-read, read-then-assigned
+    /// (only when `allow_rba`) or assigned and never read; the statement pairs are interleaved.
+    /// Reads land in fresh sink variables `m<k>` driven by this block.
+    fn mixed_partial(&mut self, t: usize, pool: &[usize], allow_rba: bool) -> Vec<S> {
+        let v = self.vars[t].clone();
+        // units: (elem, hi, lo)
+        let mut units: Vec<(Option<usize>, usize, usize)> = vec![];
+        match v.arr {
+            Some(n) => {
+                for k in 0..n {
+                    if v.width >= 2 && self.rng.bool() {
+                        let cut = 1 + self.rng.usize(v.width - 1);
+                        units.push((Some(k), cut - 1, 0));
+                        units.push((Some(k), v.width - 1, cut));
+                    } else {
+                        units.push((Some(k), v.width - 1, 0));
+                    }
+                }
+                self.feat("mixed-partial:array-element");
+            }
+            None => {
+                let mut cuts = vec![0, v.width];
+                let n = 1 + self.rng.usize(3.min(v.width - 1));
+                while cuts.len() < n + 2 {
+                    let c = 1 + self.rng.usize(v.width - 1);
+                    if !cuts.contains(&c) {
+                        cuts.push(c);
+                    }
+                }
+                cuts.sort();
+                for p in cuts.windows(2) {
+                    units.push((None, p[1] - 1, p[0]));
+                }
+            }
+        }
+        let mk = |v: &Var, u: &(Option<usize>, usize, usize)| -> Ref {
+            let sel = if u.1 + 1 == v.width && u.2 == 0 { Sel::Whole } else { Sel::Range(u.1, u.2) };
+            Ref { var: t, elem: u.0, sel }
+        };
+        self.feat("comb:mixed-partial-read-write");
+        // per unit a little statement list; then a random interleaving that keeps each list's order
+        let mut lists: Vec<Vec<S>> = vec![];
+        let mut any_rba = false;
+        let nunits = units.len();
+        for (k, u) in units.iter().enumerate() {
+            let w = u.1 - u.2 + 1;
+            let r = mk(&v, u);
+            if w == 1 {
+                self.feat("mixed-partial:bit");
+            } else if !matches!(r.sel, Sel::Whole) {
+                self.feat("mixed-partial:part-select");
+            }
+            let wr = S::Assign(r.clone(), self.expr(w, 1, pool));
+            let mut sink = |g: &mut Self| -> S {
+                g.vars.push(Var { name: format!("m{}", g.vars.len()), width: w, arr: None, kind: Kind::Var });
+                let nv = g.vars.len() - 1;
+                let rd = E::R(r.clone());
+                let e = if g.rng.bool() { rd } else { E::Bin("^", Box::new(rd), Box::new(g.leaf(w, pool))) };
+                S::Assign(Ref { var: nv, elem: None, sel: Sel::Whole }, e)
+            };
+            // the last unit takes the read-then-assign role when it is wanted and none was drawn yet
+            let role = if allow_rba && ((k + 1 == nunits && !any_rba) || self.rng.chance(1, 3)) { 1 } else if self.rng.chance(2, 3) { 0 } else { 2 };
+            match role {
+                0 => {
+                    self.feat("mixed-partial:assigned-then-read");
+                    let rd = sink(self);
+                    lists.push(vec![wr, rd]);
+                }
+                1 => {
+                    self.feat("mixed-partial:read-then-assigned");
+                    any_rba = true;
+                    let rd = sink(self);
+                    lists.push(vec![rd, wr]);
+                }
+                _ => {
+                    self.feat("mixed-partial:assigned-never-read");
+                    lists.push(vec![wr]);
+                }
+            }
+        }
+        let mut out = vec![];
+        while lists.iter().any(|l| !l.is_empty()) {
+            let live: Vec<usize> = (0..lists.len()).filter(|i| !lists[*i].is_empty()).collect();
+            let i = *self.rng.pick(&live);
+            out.push(lists[i].remove(0));
+        }
+        out
+    }
+
     fn comb_block(&mut self, targets: &[usize], inputs: &[usize], others: &[usize]) -> Vec<S> {
         // groups of statements per target, later concatenated; reads mostly come from
         // inputs / other processes' variables, sometimes from this block's own targets
@@ -831,6 +985,11 @@ impl<'a> Gen<'a> {
             }
             let w = self.vars[t].width;
             let mut g = vec![];
+            if (w >= 2 || self.vars[t].arr.is_some()) && self.rng.chance(1, 4) {
+                let rba = self.rng.bool();
+                groups.push(self.mixed_partial(t, &safe, rba));
+                continue;
+            }
             match self.rng.below(100) {
                 0..=44 => {
                     self.feat("comb:default-then-override");
@@ -1108,7 +1267,14 @@ fn clean_block(g: &mut Gen, ts: &[usize], inputs: &[usize], others: &[usize]) ->
     let mut pool: Vec<usize> = inputs.to_vec();
     pool.extend_from_slice(others);
     let mut out = vec![];
+    let mut _mixed: Vec<usize> = vec![];
     for &t in ts {
+        if (g.vars[t].width >= 2 || g.vars[t].arr.is_some()) && g.rng.chance(1, 4) {
+            // partial writes and reads in mixed order, every read after its write: still clean
+            out.extend(g.mixed_partial(t, &pool, false));
+            _mixed.push(t);
+            continue;
+        }
         out.extend(g.assign_whole(t, &pool));
     }
     for &t in ts {
@@ -1336,6 +1502,10 @@ fn judge(run: &Run, hist: &Hist, i: u64, seed: u64, o: &CaseOut) {
             "analyzer": o.an.json(), "features": o.feats, "detail": detail,
         })
     };
+    if o.feats.iter().any(|f| f == "comb:mixed-partial-read-write") {
+        run.count("mixed_partial_read_write_designs", 1);
+        run.count(&format!("mixed_partial_read_write_{}", o.exp.uv.name()), 1);
+    }
     let mut all_agree = true;
     for (code, exp) in [("multiple_assignment", o.exp.ma), ("uncovered_branch", o.exp.ub), ("unassign_variable", o.exp.uv)] {
         let got = o.an.has(code);
@@ -1490,5 +1660,8 @@ pub fn main(args: Args) {
         ("unassign_variable:expected_report", sc(15)),
         ("unassign_variable:expected_clean", sc(100)),
         ("verdicts_compared_and_agreed", sc(600)),
+        ("mixed_partial_read_write_designs", sc(60)),
+        ("mixed_partial_read_write_expected_report", sc(15)),
+        ("mixed_partial_read_write_expected_clean", sc(15)),
     ]);
 }
